@@ -769,3 +769,36 @@ def check_alloc_size(ctx, P, fname, rec, rule, why, kparam=0, ks=(1, 2, 10, 16, 
         if total < need:
             bad = bad or ("k=%d: %s asks for %d bytes, %d slots need %d (the size is computed in `%s`)" % (k, a.callee, total, 1 << k, need, fn.args(a)[idx[-1]].t), a)
     o.check(bad is None, "%d capacities" % len(ks), bad[0] if bad else None, site=bad[1] if bad else None, construct="allocation smaller than the advertised capacity")
+
+
+def macro_constant(P, name, required=True):
+    """the value every expansion of the named constant has, provided it is the same compile-time integer constant everywhere;
+    returns (value, problem, site): problem is a message when some expansion is not a constant (e.g. the address of an object) or the values differ"""
+    vals, bad, site, n_exp = set(), None, None, 0
+    for fn in P.unique_functions():
+        for n in fn.nodes:
+            if n.m != name or n.k == "ImplicitCastExpr":
+                continue
+            p = n.parent
+            while p is not None and p.k == "ImplicitCastExpr":
+                p = p.parent
+            if p is not None and p.m == name:
+                continue                      # not the outermost node of this expansion
+            n_exp += 1
+            if n.cv is None:
+                refs = [m for m in n.walk() if m.k == "DeclRefExpr" and m.dk == "global"]
+                if refs and refs[0].gstatic:
+                    bad = bad or "%s expands to `%s`, the address of the `static` object `%s` (defined in %s): every translation unit gets its own copy, so the value differs between translation units" % (
+                        name, n.text[:60], refs[0].name, P.rel(refs[0].gfile or "?"))
+                else:
+                    bad = bad or "%s expands to `%s`, which is not a compile-time constant" % (name, n.text[:60])
+                site = site or n
+            else:
+                vals.add(n.cv)
+    if n_exp == 0:
+        if required:
+            raise AnalysisBroken("constant %s is not used anywhere in the analysed units" % name)
+        return None, None, None
+    if bad is None and len(vals) != 1:
+        bad = "%s has different values in different places: %s" % (name, sorted(vals))
+    return (vals.pop() if len(vals) == 1 else None), bad, site
